@@ -15,7 +15,12 @@ pipelines; Props/C04.v), tied to the code by
 and searched by (c) the property's monitor on the real runs (byte stream against the
 concatenation of the lone responses, application-call order, writes never mixed, one queue
 entry, exactly once at quiescence) under seeded random, PCT and bounded-exhaustive schedules,
-and by the theorem predicates evaluated (extracted) on the model states the real traces map to.
+and by the theorem predicates evaluated (extracted) on the model states the real traces map to;
+  (d) the same monitor on scenarios in which OUTPUT BUFFERS CHANGE REPRESENTATION UNDER PARTIAL SENDS
+      (harness.chanpipe.BufScenario: STRBUF_LIMIT / outbuf_overflow / outbuf_high_watermark shrunk so that
+      bytes -> BytesIO -> temporary-file migrations and buffer rotation happen while the read position of the
+      buffer is non-zero).  The model abstracts a buffer as a length and has no high-watermark wait, so (d)
+      is judged by the monitor only (exact bytes against the lone-run oracle, no empty send, no stall).
 
 Finding F18 (found here, reproduced on the then real tree, replayed by the model; repaired in /repo
 by 8bcf05e): after popping the last request the finishing WORKER may call send_continue() -- a locked
@@ -260,6 +265,98 @@ def run(ctx):
         one("random-%d" % n_random, scn, policy=pol, pk=pk)
         n_random += 1
 
+    # 5. output buffers that change representation (bytes -> BytesIO -> tempfile, rotation) under partial sends:
+    #    MONITOR ONLY (the model has buffer lengths, not representations, and no back-pressure wait)
+    tb = time.time()
+    buf_budget = 90.0 if thorough else 11.0
+    bst = {"runs": 0, "overrun": 0, "violating_runs": 0, "migrations": {}, "migrations_with_nonzero_read_position": 0,
+           "runs_with_nonzero_position_migration": 0, "buffer_rotations": 0, "policies": {}, "granularity": {}, "wire_bytes": 0,
+           "complete_pipelines": 0}
+    buf_traces = set()
+    buf_best = {}
+    buf_counts = {}
+    buf_samples = []
+
+    def buf_one(name, scn, schedule=(), policy=None, pk="default"):
+        w = H.BufWorld(scn, schedule=schedule, policy=policy)
+        w.run()
+        bst["runs"] += 1
+        bst["overrun"] += w.verdict == "overrun"
+        bst["policies"][pk] = bst["policies"].get(pk, 0) + 1
+        bst["granularity"][scn.granularity] = bst["granularity"].get(scn.granularity, 0) + 1
+        nz = 0
+        for kind, pos, rem in w.migrations:
+            bst["migrations"][kind] = bst["migrations"].get(kind, 0) + 1
+            nz += 1 if pos else 0
+        bst["migrations_with_nonzero_read_position"] += nz
+        bst["runs_with_nonzero_position_migration"] += 1 if nz else 0
+        bst["buffer_rotations"] += max(0, w.rotations - 1)
+        bst["wire_bytes"] += len(w.wire)
+        buf_traces.add(hashlib.sha1((json.dumps(scn.to_json(), sort_keys=True) + "|" + ",".join(map(str, w.sched.choices))).encode()).hexdigest())
+        bad = H.buf_monitor(w)
+        if not bad and H.check_wire(scn, w.wire)[3] == "complete":
+            bst["complete_pipelines"] += 1
+        if bad:
+            bst["violating_runs"] += 1
+            mon_ok[0] = False
+        for key, text in bad:
+            buf_counts[key] = buf_counts.get(key, 0) + 1
+            rep = replay_dict("monitor-buf", name, scn, w, {
+                "granularity": scn.granularity,
+                "expected": "C04 monitor clean: wire = concatenation of the lone responses (computed under the default buffer limits) of a "
+                            "prefix of the pipeline, whatever representation the output buffers go through; no empty send; quiescent",
+                "observed": text, "wire_hex": w.wire.hex()[:600], "buffer_migrations": [list(m) for m in w.migrations][:12],
+                "policy": pk})
+            if key not in buf_best or len(json.dumps(rep)) < len(json.dumps(buf_best[key])):
+                buf_best[key] = rep
+        return w
+
+    for name, scn in H.buf_directed():
+        if bst["violating_runs"] >= 12:
+            break
+        w = buf_one(name, scn)
+        if len(buf_samples) < 3:
+            buf_samples.append({"scenario": name, "policy": "default", "verdict": w.verdict, "wire_bytes": len(w.wire),
+                                "steps": len(w.sched.choices), "send_plan": scn.send_plan, "limits": scn.to_json()["buf"],
+                                "buffer_migrations (kind, read position of the old buffer, unread bytes)": [list(m) for m in w.migrations]})
+        est = max(30, len(w.sched.choices))
+        for i in range(20 if thorough else 6):
+            r = random.Random(rng.getrandbits(48))
+            g = scn
+            if i % 3 == 2:
+                g = H.BufScenario.from_json(dict(scn.to_json(), buf=dict(scn.to_json()["buf"], granularity="attrs")))
+            if i % 2:
+                buf_one(name, g, policy=H.PCTPolicy(r, 1 + (i // 2) % 3, est * (4 if g.granularity == "attrs" else 1)), pk="pct%d" % (1 + (i // 2) % 3))
+            else:
+                buf_one(name, g, policy=H.RandomPolicy(r, stay=r.choice([0.0, 0.5, 0.9, 0.97])), pk="random")
+    n_buf_random = 0
+    while time.time() - tb < buf_budget and n_buf_random < (6000 if thorough else 700) and bst["violating_runs"] < 12:
+        r = random.Random(rng.getrandbits(48))
+        scn = H.gen_buf_scenario(r)
+        if n_buf_random % 3 == 0:
+            buf_one("buf-random-%d" % n_buf_random, scn)
+        elif n_buf_random % 3 == 1:
+            buf_one("buf-random-%d" % n_buf_random, scn, policy=H.RandomPolicy(r, stay=r.choice([0.0, 0.5, 0.9, 0.97])), pk="random")
+        else:
+            buf_one("buf-random-%d" % n_buf_random, scn, policy=H.PCTPolicy(r, r.randint(1, 3), 150 if scn.granularity == "locks" else 600), pk="pct")
+        n_buf_random += 1
+    for key, rep in sorted(buf_best.items()):
+        rep["runs_with_this_violation"] = buf_counts[key]
+        stats["monitor_violations"] += buf_counts[key]
+        report("monitor-buf:" + key, rep["observed"], rep)
+    ctx.oblige("C04 monitor clean on every run in which an output buffer changes representation under partial sends (%d runs, %d "
+               "migrations, %d of them with a non-zero read position; monitor only)"
+               % (bst["runs"], sum(bst["migrations"].values()), bst["migrations_with_nonzero_read_position"]),
+               not buf_best and bst["migrations_with_nonzero_read_position"] > 0)
+    bst["distinct_traces"] = len(buf_traces)
+    bst["random_scenarios"] = n_buf_random
+    bst["violations_by_kind"] = buf_counts
+    bst["wall_s"] = round(time.time() - tb, 1)
+    bst["judged_by"] = ("monitor only (exact wire bytes against the lone-run oracle computed under the default limits, call order, never "
+                        "mixed, one queue entry, exactly once at quiescence, no empty send, no stall); NOT replayed on Model/ChanPipe.v: "
+                        "the model abstracts a buffer as a length and has no high-watermark wait")
+    bst["samples"] = buf_samples
+
     ctx.oblige("K-chanpipe: every operation of every real trace is a step of Model/ChanPipe.v with the same label "
                "and the same abstract state (%d traces, %d steps)" % (stats["validated_traces"], stats["validated_steps"]),
                conf_ok[0] and stats["validated_traces"] > 0)
@@ -274,8 +371,10 @@ def run(ctx):
 
     ctx.coverage.update({
         "rule": "real HTTPChannel/dispatcher/poll traces under the deterministic scheduler mapped step by step to the extracted "
-                "model (label + abstract state after every step); C04 monitor on every run; ast shape audit of 15 methods",
-        "evaluations": stats["runs"],
+                "model (label + abstract state after every step); C04 monitor on every run; ast shape audit of 15 methods; "
+                "plus monitor-only runs in which output buffers change representation under partial sends (buffer_representation_search; "
+                "counted in evaluations, not in traces_validated_against_impl)",
+        "evaluations": stats["runs"] + bst["runs"],
         "traces_validated_against_impl": stats["validated_traces"],
         "steps_validated": stats["validated_steps"],
         "distinct_nontrivial": len(nontrivial),
@@ -288,6 +387,7 @@ def run(ctx):
         "scenario_distribution": H.scenario_dist(scns_seen),
         "samples": samples,
         "shape_audit_methods": sorted(list(H.EXPECTED_SHAPE) + list(H.EXPECTED_DISPATCHER_SHAPE)),
+        "buffer_representation_search": bst,
         "f18_regression": {"stored_schedule_clean": f18_clean, "model_old_shape_refuted": model_old_refuted,
                            "model_current_shape_ok": model_new_ok},
     })
@@ -295,6 +395,15 @@ def run(ctx):
 
 def replay(data):
     H = _H()
+    if data.get("kind") == "monitor-buf":
+        scn = H.BufScenario.from_json(data["scenario"])
+        w = H.BufWorld(scn, schedule=data["choices"])
+        w.run()
+        bad = H.buf_monitor(w)
+        print("kind=monitor-buf scenario=%s verdict=%s wire=%d bytes migrations=%r" % (data.get("scenario_name"), w.verdict, len(w.wire), w.migrations))
+        print("monitor now: %r" % (bad,))
+        print("observed then: %s" % (data.get("observed"),))
+        return 1 if bad else 0
     scn = H.Scenario.from_json(data["scenario"])
     w = H.PipeWorld(scn, schedule=data["choices"])
     w.run()
